@@ -38,7 +38,7 @@ failed, tail = tests()
 mut_demo, demo_out = rundemo()
 results = {}
 for cid in checks:
-    out = "/var/tmp/numpoly-verif-mut"
+    out = f"/var/tmp/numpoly-verif-mut-{sid}"
     t = time.time()
     r = sh(f"VERIF_REPO={wt} VERIF_OUT={out} /verif/check {cid}")
     nviol = len(re.findall(r"^VIOLATION", r.stdout, re.M))
